@@ -15,6 +15,7 @@ def check(rep):
     LR.rule_no_dead(ctx)
     LR.rule_tokens_have_rules(ctx)
     LR.rule_id_total(ctx)
+    LR.rule_token_spelling(ctx, rid="C07.TOKEN-SPELLING", directions=("doc<=lexer",))
     from . import evalrules as ER
     # a lexer kept between compilations stays in whatever state the previous text left it (e.g. inside a comment)
     ER.rule_fresh_per_parse(ctx, rid="C07.FRESH-LEXER-PER-PARSE", kinds=("Lexer",))
@@ -25,9 +26,12 @@ def check(rep):
     PR.rule_compiles(ctx, layouts=(False,))
     PR.rule_names_bound(ctx, layouts=(False,))
     PR.rule_generator_total(ctx)
+    PR.rule_depth_unbounded(ctx, rid="C07.DEPTH-UNBOUNDED")
     if rep.tier == "thorough":
         PR.rule_exhaustive_predicates(ctx, rid="C07.COMPILES-EXHAUSTIVE", kinds=("compile",))
     PR.rule_trailing_raise(ctx, rid="C07.ENDS-IN-GROUP-OR-UNROUTABLE")
+    # what the caller passes reaches the compiled function as it is (a filtered or renamed field is a TypeError/NameError there)
+    ER.rule_call_forwards(ctx, rid="C07.CALL-FORWARDS", aspects=("args",))
     PR.rule_literal_terms(ctx, rid="C07.TERM-RENDER")
     PR.rule_ident_positions(ctx)
     # the evaluator execs the text with separate globals/locals: a helper defined at the module level of the generated text
